@@ -427,6 +427,28 @@ func (m c18) run(c *Ctx, t *TypeSpec, rs *ResSpec, muts []c18mut) {
 	if len(t.Attrs) == 0 || len(t.Rels) == 0 {
 		c.Count("single_kind_types")
 	}
+	// a copy of the (possibly mutated) copy equals it and shares nothing with it
+	if !(t.Wrapped && len(typeEdited) > 0) {
+		var s1, s2 resSnap
+		var a1, a2 map[string]uintptr
+		if pi := Guard(func() {
+			cp2 := cp.(jsonapi.Copier).Copy()
+			s1, s2 = snapshotRes(cp), snapshotRes(cp2)
+			a1, a2 = sliceAddrs(cp), sliceAddrs(cp2)
+		}); pi == nil {
+			c.Count("copy_of_copy")
+			if d := s1.diff(s2); d != "" {
+				c.Violate("copy-differs/"+impl+"/"+s1.diffClass(s2)+"/copy-of-mutated-copy", "Copy() of a resource that was itself a copy and then mutated differs from it: %s; %s", d, desc(len(muts)))
+				return
+			}
+			for k, p := range a1 {
+				if a2[k] == p {
+					c.Violate("copy-shares-backing-array/"+impl+"/copy-of-copy", "field %q; %s", k, desc(len(muts)))
+					return
+				}
+			}
+		}
+	}
 	if nonEmptySlices >= 1 || len(t.Attrs) == 0 || len(t.Rels) == 0 {
 		c.Nontrivial(impl + jsonStr(t) + jsonStr(rs) + jsonStr(muts))
 	}
